@@ -185,6 +185,8 @@ def main():
     common.run_cases(rep, run_case, cases())
     from harness import k_lemmas
     k_lemmas.run_into(rep, ['k_whip', 'k_expand'])
+    from harness import conformance
+    conformance.run_into(rep)
     return rep.finish()
 
 
